@@ -384,6 +384,11 @@ CORPUS["C18"] = [
 ]
 
 CORPUS["C19"] = [
+    B('layer index from altitude as a count of layer bases at or below h', (ATM, '    i = np.zeros_like(h, dtype=int)\n    for j in range(1, len(H_b)):\n        i[H_b[j] <= h] = j\n', '    i = np.count_nonzero(H_b[1:] <= h[..., np.newaxis], axis=-1)\n')),
+    M('count of layer bases strictly below h (a boundary falls into the lower layer)', (ATM, '    i = np.zeros_like(h, dtype=int)\n    for j in range(1, len(H_b)):\n        i[H_b[j] <= h] = j\n', '    i = np.count_nonzero(H_b[1:] < h[..., np.newaxis], axis=-1)\n')),
+    B('layer index from pressure by searchsorted on the reversed table', (ATM, '    i = np.zeros_like(P, dtype=int)\n    for j in range(1, len(P_b)):\n        i[P_b[j] >= P] = j\n', '    i = (len(P_b) - 1) - np.searchsorted(P_b[:0:-1], P, side="left")\n')),
+    M('searchsorted from the right (a boundary pressure falls into the lower layer)', (ATM, '    i = np.zeros_like(P, dtype=int)\n    for j in range(1, len(P_b)):\n        i[P_b[j] >= P] = j\n', '    i = (len(P_b) - 1) - np.searchsorted(P_b[:0:-1], P, side="right")\n')),
+    M('searchsorted over the whole reversed table (index shifted by one)', (ATM, '    i = np.zeros_like(P, dtype=int)\n    for j in range(1, len(P_b)):\n        i[P_b[j] >= P] = j\n', '    i = (len(P_b) - 1) - np.searchsorted(P_b[::-1], P, side="left")\n')),
     M("one copy edited", (ATM, "    z[x] = const.earth_radius * H[x] / (const.earth_radius - H[x])\n    z[~x] = np.inf\n    return z\n\n\ndef us_std_atm_pressure_from_altitude(z):\n    z = np.asarray(z)", "    z[x] = const.earth_radius * H[x] / (const.earth_radius - H[x] + 1e-12)\n    z[~x] = np.inf\n    return z\n\n\ndef us_std_atm_pressure_from_altitude(z):\n    z = np.asarray(z)")),
     M("boundary moved to the lower layer in one direction", (PRESS, "        i[P_b[j] >= P] = j", "        i[P_b[j] > P] = j")),
     M("table digit changed", (CONST, "        2.233611e-1,", "        2.233612e-1,")),
